@@ -28,6 +28,7 @@ inductive Acct
   | bidder (n : Nat) | auction | collector | owner | keeper | initiator | reserve | pool | vaultMod
   | lendres      -- the lend module account (lend reserve)
   | poolIn       -- the pool the collateral was lent to, when it is not the debt pool (cross-pool borrow)
+  | esm          -- the emergency-shutdown module account (first-generation wind-down)
   deriving DecidableEq, Repr, Inhabited
 
 inductive Denom | coll | debt
